@@ -5,7 +5,7 @@ from props import coregen as G, corecheck as K
 PID = 'C01'
 PROFILE = dict(named_cols=0.4, partial_args=0.3, inclusion=0.3, assign=0.7, lists=0.35, records=0.35, combine=0.0,
                disjunction=0.35, filter=0.45, negation=0.0, two_rules=0.35, distinct=0.0, aggregation=0.0,
-               ifthenelse=0.5, builtins=0.4, func_calls=0.5, set_agg=0.0)
+               ifthenelse=0.5, builtins=0.4, func_calls=0.5, share_names=0.5, set_agg=0.0, operators=0.6)
 
 # programs for the elimination tie: more unifications, chains of assignments, calls (inlined as tables)
 ELIM_PROFILE = dict(PROFILE, inclusion=0.0, lists=0.0, records=0.0, assign=0.9, filter=0.6, func_calls=0.5, builtins=0.3)
